@@ -203,6 +203,42 @@ def check(P, R, tier):
             else:
                 R.ob("RF7a-opt", "%s: no test of the other direction's locale option on the way to it" % site, True)
     R.floor("RF7a-opt", "locale options applied in the tools' main()", nopt, 13)
+    # ---------------------------------------------------------------- RF7a-tzpin: the libc front end pins TZ and the locale unless asked not to
+    st_ = P.by_obj.get("strptime-strptime.o")
+    if st_ is not None:
+        mn = st_.func("main")
+        if mn is None:
+            raise AnalysisBroken("RF7a-tzpin: main of the strptime tool vanished")
+        uses = [n for n in mn.tu.funclist for n in n.calls() if n.get("callee") in ("tzset", "strftime", "mktime", "localtime", "localtime_r")]
+        pins = []
+        for n in mn.calls():
+            nm = n.get("callee")
+            args = call_args(n)
+            a0 = strip(args[0]) if args else None
+            lit = a0.get("s") if a0 is not None and a0.get("k") == "StringLiteral" else None
+            if nm == "setenv" and lit == "TZ" and len(args) >= 3:
+                ov = const_of(args[2])
+                if ov is not None and ov != 0:
+                    pins.append(n)
+                else:
+                    R.finding("RF7a-tzpin", mn, "setenv(\"TZ\", ..., %s)" % expr_text(args[2]), "the tool pins TZ for its libc calls, but "
+                              "with overwrite %s a TZ already in the environment stays in force: %%Z, %%z and %%s of the strptime tool follow "
+                              "the caller's TZ although --locale was not asked for" % expr_text(args[2]), n)
+                    pins.append(None)
+            elif nm == "unsetenv" and lit == "TZ" or nm == "putenv" and lit is not None and lit.startswith("TZ="):
+                pins.append(n)
+        good = [p_ for p_ in pins if p_ is not None]
+        for p_ in good:
+            gs = [g for g in guards_of(mn, p_) if "pol" in g]
+            txt = " ".join(("" if g["pol"] else "!") + expr_text(strip(g["cond"])) for g in gs)
+            if "locale_flag" in txt:
+                R.ob("RF7a-tzpin", "strptime main: TZ pinned (overwriting) on the path without --locale (`%s`)" % txt, True)
+            else:
+                R.ob("RF7a-tzpin", "strptime main: TZ pinned (overwriting)", True)
+        if uses and not pins:
+            R.finding("RF7a-tzpin", mn, "no pin of TZ", "the strptime tool calls %s but nothing pins TZ first: its output follows the caller's TZ "
+                      "whether or not --locale was given" % ", ".join(sorted({u.get("callee") for u in uses})), mn.body if getattr(mn, "body", None) else None)
+        R.floor("RF7a-tzpin", "TZ pins in the strptime tool", len(pins), 1 if uses else 0)
     for u, why in EXEMPT_UNITS.items():
         R.exceptions.append("unit %s exempt: %s" % (u, why))
     # exempt unit must stay isolated: nothing it defines is called from elsewhere
